@@ -1802,6 +1802,207 @@ import inspect as _inspect
 _MP_EXTRA = {"allow_none": False} if "allow_none" in _inspect.signature(mp.map_programs).parameters else {}
 
 
+# =================================================================================================
+# renames campaign: Pipeline.update_renames / update_scope with every option (update_from, overwrite; scope names that
+# are prefixes of parameter names) against the *program they denote*: the rewritten pipeline must behave like the
+# reference model of the program whose per-function renames are what the documentation says they become
+# =================================================================================================
+def _renamed_prog(prog: dict, maps: dict) -> dict:
+    """prog with, per function name, the python-level -> pipeline-level name map replaced by maps[name]."""
+    new = _copy.deepcopy(prog)
+    for fn in new["funcs"]:
+        mp_ = maps[fn["name"]]
+        cur2orig = dict(zip(fn["params"] + fn["outs"], fn["orig"] + fn["orig_outs"]))
+        ren = lambda o: mp_.get(o, o)  # noqa: E731
+        fn["params"] = [ren(o) for o in fn["orig"]]
+        fn["outs"] = [ren(o) for o in fn["orig_outs"]]
+        for key in ("sig_defaults", "pf_defaults", "bound"):
+            fn[key] = {ren(cur2orig[k]): v for k, v in fn[key].items()}
+    return new
+
+
+def _cur_maps(prog: dict) -> dict:
+    return {fn["name"]: {o: c for o, c in zip(fn["orig"] + fn["orig_outs"], fn["params"] + fn["outs"]) if o != c} for fn in prog["funcs"]}
+
+
+def _prog_ok(prog: dict) -> bool:
+    outs = [o for fn in prog["funcs"] for o in fn["outs"]]
+    if len(set(outs)) != len(outs):
+        return False
+    for fn in prog["funcs"]:
+        names = fn["params"] + fn["outs"]
+        if len(set(names)) != len(names):
+            return False
+    try:
+        m = DagModel(prog)
+        for o in outs:
+            m.cone(o)
+        # acyclic: a topological order exists
+        prod = {o: fn["name"] for fn in prog["funcs"] for o in fn["outs"]}
+        deps = {fn["name"]: {prod[q] for q in fn["params"] if q in prod and q not in fn["bound"]} for fn in prog["funcs"]}
+        done: set = set()
+        while len(done) < len(deps):
+            ready = [f for f in deps if f not in done and deps[f] <= done]
+            if not ready:
+                return False
+            done |= set(ready)
+    except Exception:
+        return False
+    return True
+
+
+@st.composite
+def rename_cases(draw):
+    return {
+        "prog": draw(dag_programs(max_funcs=4, min_funcs=2, consistent_ignored_defaults=True)),
+        "op": draw(st.sampled_from(["renames", "renames", "scope"])),
+        "frm": draw(st.sampled_from(["current", "original"])),
+        "overwrite": draw(st.booleans()),
+        "sel": draw(st.integers(0, 2**12 - 1)),
+        "scope_kind": draw(st.sampled_from(["fresh", "prefix-of-a-name", "existing"])),
+    }
+
+
+def body_renames(data) -> Outcome:
+    from vlib.dag import build_pipeline
+
+    out = Outcome()
+    prog = data["prog"]
+    log: list = []
+    try:
+        p = build_pipeline(prog, log)
+    except Exception:
+        out.labels.append("n/a:build-refused")
+        return out
+    maps = _cur_maps(prog)
+    sel = data["sel"]
+    if data["op"] == "renames":
+        frm, overwrite = data["frm"], data["overwrite"]
+        if frm == "original":
+            keys = sorted({o for fn in prog["funcs"] for o in fn["orig"] + fn["orig_outs"]})
+        else:
+            keys = sorted({c for fn in prog["funcs"] for c in fn["params"] + fn["outs"]})
+        chosen = [k for i, k in enumerate(keys) if (sel >> i) & 1][:2] or [keys[sel % len(keys)]]
+        R = {k: f"n{i}" for i, k in enumerate(chosen)}
+        new_maps = {}
+        for fn in prog["funcs"]:
+            old = maps[fn["name"]]
+            if frm == "original":
+                rf = {k: v for k, v in R.items() if k in fn["orig"] + fn["orig_outs"]}
+            else:
+                inv = dict(zip(fn["params"] + fn["outs"], fn["orig"] + fn["orig_outs"]))
+                rf = {inv[k]: v for k, v in R.items() if k in inv}
+            new_maps[fn["name"]] = dict(rf) if overwrite else {**old, **rf}
+        label = f"update_renames:{frm}:{'overwrite' if overwrite else 'merge'}"
+        call = lambda: p.update_renames(dict(R), update_from=frm, overwrite=overwrite)  # noqa: E731
+        desc = f"update_renames({R}, update_from={frm!r}, overwrite={overwrite})"
+        if overwrite and any(m_ and not set(m_) & set(R if frm == "original" else ()) for m_ in maps.values()):
+            out.labels.append("overwrite-resets-renames-of-untouched-functions")
+    else:
+        roots = sorted({q for fn in prog["funcs"] for q in fn["params"] if q not in fn["bound"]} - {o for fn in prog["funcs"] for o in fn["outs"]})
+        outs_all = sorted(o for fn in prog["funcs"] for o in fn["outs"])
+        names = roots + outs_all
+        kind = data["scope_kind"]
+        target = names[sel % len(names)]
+        if kind == "prefix-of-a-name":
+            scope = target[: max(1, len(target) - 1)] if len(target) > 1 else target  # e.g. scope 'r' / 'o1' for the name 'r0' / 'o1a'
+        elif kind == "existing":
+            scope = "sc"
+        else:
+            scope = "zz"
+        # first put one name into scope 'sc' so that an existing scope gets replaced by the second call
+        pre = names[(sel // 7) % len(names)]
+        bound_names = {q for fn in prog["funcs"] for q in fn["bound"]}
+        which = [x for i, x in enumerate(names) if (sel >> i) & 1 and x not in bound_names] or [target]
+        which = [x for x in which if x not in bound_names]
+        if not which or pre in bound_names:
+            out.labels.append("n/a:only-bound-names")
+            return out
+        ins = {x for x in which if x in roots}
+        os_ = {x for x in which if x in outs_all}
+
+        def scoped(maps_in, sc, chosen_names):
+            res = {}
+            for fn in prog["funcs"]:
+                mm = dict(maps_in[fn["name"]])
+                for o in fn["orig"] + fn["orig_outs"]:
+                    cur = mm.get(o, o)
+                    if cur in chosen_names and cur not in fn["bound"]:
+                        mm[o] = f"{sc}.{cur.split('.', 1)[-1]}"
+                res[fn["name"]] = mm
+            return res
+
+        def call():
+            if kind == "existing":
+                p.update_scope("old", inputs={pre} if pre in roots else None, outputs={pre} if pre in outs_all else None)
+            p.update_scope(scope, inputs=ins or None, outputs=os_ or None)
+
+        if kind == "existing":
+            m1 = scoped(maps, "old", {pre})
+            chosen_after = {("old." + x) if x == pre else x for x in which}
+            # names given to the second call are the *current* ones: the test passes the old names, so `pre` is only
+            # re-scoped when it was not selected (then it keeps 'old.')
+            new_maps = scoped(m1, scope, {x for x in which if x != pre})
+            which = [x for x in which if x != pre]
+            ins, os_ = {x for x in which if x in roots}, {x for x in which if x in outs_all}
+            if not which:
+                out.labels.append("n/a:nothing-left-to-scope")
+                return out
+            del chosen_after
+        else:
+            new_maps = scoped(maps, scope, set(which))
+        label = f"update_scope:{kind}"
+        desc = f"update_scope({scope!r}, inputs={sorted(ins)}, outputs={sorted(os_)})"
+        if any(x != scope and x.startswith(scope) for x in which):
+            out.labels.append("scope-is-a-prefix-of-a-scoped-name")
+    out.labels.append(label)
+    prog2 = _renamed_prog(prog, new_maps)
+    dict_changed = any(f1["picker"] == "dict" and f1["outs"] != f2["outs"] for f1, f2 in zip(prog["funcs"], prog2["funcs"]))
+    if dict_changed:
+        out.labels.append("n/a:dict-picker-output-renamed")  # the tracer's returned dict is keyed by the old names
+        return out
+    if not _prog_ok(prog2):
+        out.labels.append("n/a:result-is-not-a-program")
+        return out
+    try:
+        build_pipeline(prog2, None)
+    except Exception:
+        out.labels.append("n/a:result-refused-when-built-from-scratch")
+        return out
+    try:
+        call()
+    except Exception as e:
+        out.fail(exc_bucket(e, f"{label}-raised"), f"{desc}: {exc_detail(e)}")
+        return out
+    out.nontrivial = True
+    m2 = DagModel(prog2)
+    try:
+        views = set(p.topological_generations.root_args) | set(p.all_output_names)
+    except Exception as e:
+        out.fail(exc_bucket(e, f"{label}-views-raised"), exc_detail(e))
+        return out
+    want_views = set(m2.all_outputs()) | {r for o in m2.all_outputs() for r in m2.needed_roots(o)}
+    if views != want_views:
+        out.fail(f"{label}-names-differ", f"{desc}: pipeline has {sorted(views)}, the renamed program has {sorted(want_views)}")
+        return out
+    for o in m2.all_outputs():
+        kw = {r: f"V{r}" for r in m2.needed_roots(o)}
+        try:
+            want = m2.evaluate(o, kw)[0]
+        except Missing:
+            continue
+        out.units += 1
+        try:
+            got = p(o, **kw)
+        except Exception as e:
+            out.fail(exc_bucket(e, f"{label}-call-raised"), f"{desc}; {o}: {exc_detail(e)}")
+            return out
+        if got != want:
+            out.fail(f"{label}-value-differs", f"{desc}; {o}: got {got!r} want {want!r}")
+            return out
+    return out
+
+
 def campaigns(tier):
     progs = st.one_of(
         dag_programs(max_funcs=5, consistent_ignored_defaults=True, shuffle_names=True),
@@ -1823,6 +2024,9 @@ def campaigns(tier):
                  describe="larger single-output DAGs (4-7 functions, output names not in dependency order) x simplified_pipeline"),
         Campaign("dag", body_dag, dag, quick=5000, thorough=120000, describe="DagPrograms x <=3 rewrites, pipeline(...) and map"),
         Campaign("map", body_map, mpc, quick=800, thorough=24000, describe="MapPrograms x <=3 rewrites under map"),
+        Campaign("renames", body_renames, rename_cases(), quick=3000, thorough=60000,
+                 describe="update_renames (current/original x merge/overwrite) and update_scope (fresh / replacing / prefix-of-a-name "
+                          "scopes) vs. the reference model of the program the call denotes"),
     ]
 
 
